@@ -160,7 +160,7 @@ def trace_cfg(ck, allow):
     return p
 
 
-def judge(ck, outp, events, execs, lines, what):
+def judge(ck, outp, events, execs, lines, what, depth=0):
     """strict validation, then with the named deviations; returns True when accepted (possibly as observations)"""
     for e in events:
         if e["e"] in ("Crashed", "HarnessTimeout"):
@@ -186,6 +186,19 @@ def judge(ck, outp, events, execs, lines, what):
     v = vall
     x = vf.exec_index_of_line(events, v.maxl)
     bad = events[v.maxl - 1] if 0 < v.maxl <= len(events) else {}
+    if depth < 3 and x < len(lines):
+        # real time is involved: run the refused script again, alone, before reporting it
+        o1, ev1, ex1 = run_cases(ck, [lines[x]], "%s_again%d" % (what, depth))
+        v1 = vf.validate_trace(TRACE, trace_cfg(ck, ALLOW), o1, tag="X18_again")
+        if v1.accepted:
+            ck.note("a refused execution was accepted when run again (timing; first refusal at %s, case: %s)" % (json.dumps(bad), lines[x]))
+            keep = [i for i in range(len(lines)) if i != x]
+            rest = os.path.join(ck.work, "%s_rest%d.ndjson" % (what, depth))
+            with open(rest, "w") as f:
+                for i in keep:
+                    f.write("".join(json.dumps(e) + "\n" for e in execs[i][1]) + '{"e":"Reset"}\n')
+            ev2 = vf.read_ndjson(rest)
+            return judge(ck, rest, ev2, vf.split_executions(ev2), [lines[i] for i in keep], what, depth + 1)
     rp = ck.save_replay("%s_reject_%d" % (what, x), {"trace.ndjson": "\n".join(json.dumps(e) for e in execs[x][1]) + "\n", "case.txt": lines[x] + "\n"})
     ck.violation("DnsTransport %s: execution rejected by DnsTransportTrace.tla at %s (case: %s)" % (what, json.dumps(bad), lines[x]), rp)
     return False
